@@ -24,8 +24,7 @@ theorem act_kid {c : Cfg} {s s' : Sh} {pc pc' : Pc} {sp : List Pc} (q : Cid)
   all_goals (first
     | (simp_all [Pc.kwin, kwin]; done)
     | (simp_all [Pc.kwin, kwin, List.count_cons] <;> omega)
-    | (simp_all [Pc.kwin, kwin, List.count_cons] <;> split <;> simp_all <;> omega)
-    | (trace_state; sorry))
+    | (simp_all [Pc.kwin, kwin, List.count_cons] <;> split <;> simp_all <;> omega))
 
 theorem act_kid_mono {c : Cfg} {s s' : Sh} {pc pc' : Pc} {sp : List Pc}
     (h : act c s pc = some (pc', s', sp)) :
@@ -33,8 +32,7 @@ theorem act_kid_mono {c : Cfg} {s s' : Sh} {pc pc' : Pc} {sp : List Pc}
     (∀ q, pc'.waitsKid = some q → q ∈ s'.kidDisp) ∧ (∀ p ∈ sp, p.waitsKid = none) := by
   cases pc <;> act_cases h
   all_goals (first
-    | (simp_all [Pc.waitsKid]; done)
-    | (trace_state; sorry))
+    | (simp_all [Pc.waitsKid]; done))
 
 structure KidInv (s : Sys) : Prop where
   win : ∀ q, tot (kwin q) s.thr + s.sh.kidClosed.count q = s.sh.kidDisp.count q
